@@ -544,13 +544,13 @@ pub const fn is_true_vartime(&self) -> (ret__: bool)
 impl ConstChoice {
 pub const fn to_u8(self) -> (ret__: u8)
 //@+
-    requires self.wf()
-    ensures ret__ == (if self.t() { 1u8 } else { 0u8 })
+    ensures ret__ <= 1, self.wf() ==> ret__ == (if self.t() { 1u8 } else { 0u8 })
 //@-
 {
 //@+
     let ghost m = self.0;
-    assert(((m as u8) & 1) == (if m == 0xffff_ffff_ffff_ffffu64 { 1u8 } else { 0u8 })) by (bit_vector) requires m == 0 || m == 0xffff_ffff_ffff_ffffu64;
+    assert((m == 0 || m == 0xffff_ffff_ffff_ffffu64) ==> ((m as u8) & 1) == (if m == 0xffff_ffff_ffff_ffffu64 { 1u8 } else { 0u8 })) by (bit_vector);
+    assert(((m as u8) & 1) <= 1) by (bit_vector);
 //@-
         (self.0 as u8) & 1
     }
